@@ -429,7 +429,7 @@ class Src:
 
 
 BLANKS = [" ", " ", " ", "\t", "\xa0", "　", "\x0b", "\x0c", " "]
-ADVERSARIAL = ["{", "}", "{int}", "{0}", "{}", "%s", "%(x)s", "%", "${x}", "\\x41", "\\u00e9", "&lt;", "'", "''", "\"", "x", "a", "word", " ", "Examples", "Background", "Rule", "Scenario Outline", "Feature", "Scenario", "Given x", "When ", "* y", "| a | b |", '"""', "```", "Examples:", "Scenario: s", "Feature: f", "Rule: r",
+ADVERSARIAL = ['\\"\\"\\"', "\\`\\`\\`", "#12", "{", "}", "{int}", "{0}", "{}", "%s", "%(x)s", "%", "${x}", "\\x41", "\\u00e9", "&lt;", "'", "''", "\"", "x", "a", "word", " ", "Examples", "Background", "Rule", "Scenario Outline", "Feature", "Scenario", "Given x", "When ", "* y", "| a | b |", '"""', "```", "Examples:", "Scenario: s", "Feature: f", "Rule: r",
                "Background:", "@tag", "# c", "#language: fr", "<a>", "<b>", "\\", "\\n", "\\|", "a.b", "a(b", "$1", "\\1", "[", "*", "+", "?",
                "\x85", " ", " ", "\x1c", "\x1d", "\x1e", "é", "\U0001F600", "日本", ":", "  ", "\t", "b",
                "\ufeff", "\u200b", "\u2060", "\u180e", "\ufeffx", "long tail of ordinary prose without any special character in it at all"]
@@ -521,7 +521,7 @@ def g_titled(s, kws, ctx, dialect, has_tags=True, p_desc=0.4):
     return t
 
 
-CELL_UNITS = ["x", "a", " ", "<a>", "<b>", "\\|", "\\\\", "\\n", "\\x", "é", "\U0001F600", "\xa0", "\t", "1", "$", ".", "\\ "]
+CELL_UNITS = ["#", "#12", "@t", "x", "a", " ", "<a>", "<b>", "\\|", "\\\\", "\\n", "\\x", "é", "\U0001F600", "\xa0", "\t", "1", "$", ".", "\\ "]
 
 
 def g_cell(s):
